@@ -32,7 +32,14 @@ SUB = "subscription { s }"
 
 
 def register(i, name):
-    """bundle i (1..3) under schema name `name`: same type/field names, different behaviour"""
+    """bundle i (1..3) under schema name `name`: same type/field names, different behaviour.
+    name=None: every decorator is used WITHOUT a schema_name argument (the documented default schema "default")"""
+    if name is None:
+        return _register(i, {})
+    return _register(i, {"schema_name": name})
+
+
+def _register(i, SN):
     cat = {"_typename": "Cat", "name": "cat%d" % i, "lives": i}
     dog = {"_typename": "Dog", "name": "dog%d" % i}
     lying = {"_typename": "Dog", "name": "liar%d" % i, "lives": 9, "kind": "Cat"}     # default naming says Dog, the bundle's own type resolver says Cat
@@ -46,43 +53,43 @@ def register(i, name):
 
         def parse_literal(self, ast):
             return int(ast.value) * 1000 + i
-    Scalar("Sc", schema_name=name)(Sc)
+    Scalar("Sc", **SN)(Sc)
 
     class DD:
         async def on_field_execution(self, directive_args, next_resolver, parent, args, ctx, info):
             return (await next_resolver(parent, args, ctx, info)) + 100 * i
-    Directive("dd", schema_name=name)(DD())
+    Directive("dd", **SN)(DD())
 
     async def pet(parent, args, ctx, info):
         return lying
     if i == 1:
-        Resolver("Query.pet", schema_name=name, type_resolver=lambda result, ctx, info, abstract: result.get("kind", result["_typename"]))(pet)
+        Resolver("Query.pet", **SN, type_resolver=lambda result, ctx, info, abstract: result.get("kind", result["_typename"]))(pet)
     else:
-        Resolver("Query.pet", schema_name=name)(pet)
+        Resolver("Query.pet", **SN)(pet)
     if i == 2:
-        TypeResolver("Pet", schema_name=name)(lambda result, ctx, info, abstract: "Dog")
+        TypeResolver("Pet", **SN)(lambda result, ctx, info, abstract: "Dog")
 
-    @Resolver("Query.u", schema_name=name)
+    @Resolver("Query.u", **SN)
     async def u(parent, args, ctx, info):
         return dog if i != 3 else cat
 
-    @Resolver("Query.pets", schema_name=name)
+    @Resolver("Query.pets", **SN)
     async def pets(parent, args, ctx, info):
         return [lying, dog]
 
-    @Resolver("Query.item", schema_name=name)
+    @Resolver("Query.item", **SN)
     async def item(parent, args, ctx, info):
         return 7
 
-    @Resolver("Query.v", schema_name=name)
+    @Resolver("Query.v", **SN)
     async def v(parent, args, ctx, info):
         return i
 
-    @Resolver("Query.echo", schema_name=name)
+    @Resolver("Query.echo", **SN)
     async def echo(parent, args, ctx, info):
         return args.get("x")
 
-    @Subscription("Subscription.s", schema_name=name)
+    @Subscription("Subscription.s", **SN)
     async def s(parent, args, ctx, info):
         yield {"s": i}
         yield {"s": 10 * i}
@@ -142,6 +149,20 @@ for _sub in (() if CHILD else ([1, 2], [1, 3], [2, 3], [1, 2, 3])):
                 register(_i, "co_%d_%d" % (_c, _i))
             for _i in _cook:
                 ENG[(_c, _i)] = build(SDL, "co_%d_%d" % (_c, _i), query_cache_decorator=DictCache())
+# the unnamed ("default") schema next to named ones, both orders
+DEFAULT_SCEN = []
+if not CHILD:
+    for _order in (("default", "named"), ("named", "default")):
+        _c = len(COMBOS)
+        COMBOS.append({"subset": [3, 1], "reg": list(_order), "cook": list(_order), "default_schema": 3})
+        for _who in _order:
+            if _who == "default":
+                SchemaRegistry._schemas.pop("default", None)
+                register(3, None)
+                ENG[(_c, 3)] = env.build(SDL, None, query_cache_decorator=DictCache())
+            else:
+                register(1, "co_%d_1" % _c)
+                ENG[(_c, 1)] = build(SDL, "co_%d_1" % _c, query_cache_decorator=DictCache())
 for _e in list(ALONE.values()) + list(ENG.values()):
     probe(_e, 1)
 
